@@ -155,6 +155,21 @@ impl Property for C02 {
                 acc.violation(i, None, format!("a stream of {} complete responses ({} bytes, then the peer stays silent) read in one piece by the blocking connection gave {} responses, terminal {:?}", want, body.len(), got, reference.items.last().map(|x| x.kind())), J::obj().set("stream_len", body.len() as u64).set("observed", items_summary(&reference.items)));
             }
         }
+        if label == "many-short-lines" {
+            // ... and nothing inside them may go missing: every field line is a field of some frame, every list_OK closes a frame
+            let want_fields = body.split(|&b| b == b'\n').filter(|l| l.windows(2).any(|w| w == b": ")).count();
+            let want_frames_at_least = body.split(|&b| b == b'\n').filter(|l| *l == b"list_OK").count();
+            let (mut got_fields, mut got_frames) = (0usize, 0usize);
+            for it in &reference.items {
+                if let Item::Resp(r) = it {
+                    got_frames += r.frames.len();
+                    got_fields += r.frames.iter().map(|f| f.fields.len()).sum::<usize>();
+                }
+            }
+            if got_fields != want_fields || got_frames < want_frames_at_least {
+                acc.violation(i, None, format!("a stream with {} field lines and {} list_OK lines was decoded into {} fields in {} frames", want_fields, want_frames_at_least, got_fields, got_frames), J::obj().set("stream_len", body.len() as u64).set("observed", items_summary(&reference.items)));
+            }
+        }
         if let Some(Item::Panic(m)) = reference.items.last() {
             // panics are C09's business, but a panic also makes the result segmentation dependent
             acc.inc("reference_panics");
